@@ -2,6 +2,7 @@ package oracle
 
 import (
 	"fmt"
+	"sort"
 	"strings"
 	"time"
 
@@ -116,6 +117,7 @@ func CheckC06(m *Model, events []sched.Event, cycle int, now time.Time, st *Stat
 	failedInAction := map[string]bool{}
 	placedByAction := map[string]map[string]bool{} // action -> group placed (bind/pipeline ok)
 	pipedTo := map[string]map[string]string{}      // action -> pod key -> node
+	pipedGroups := map[string][]string{}           // action/pod key -> GPU groups of the nomination
 	for i := range events {
 		e := &events[i]
 		if !OK(e) {
@@ -130,6 +132,7 @@ func CheckC06(m *Model, events []sched.Event, cycle int, now time.Time, st *Stat
 			placedByAction[e.Action][e.Group] = true
 			if e.Kind == "pipeline" {
 				pipedTo[e.Action][e.Key()] = e.Node
+				pipedGroups[e.Action+"/"+e.Key()] = e.GPUGroups
 			}
 		}
 	}
@@ -232,7 +235,15 @@ func CheckC06(m *Model, events []sched.Event, cycle int, now time.Time, st *Stat
 			}
 			if act == "consolidation" {
 				if to, ok := pipedTo[e.Action][e.Key()]; !ok || to == e.Node {
-					out = append(out, Viol("C06", "consolidation-without-replacement", "", cycle, "consolidation evicted pod %s from %s without nominating it on another node (nominated to %q)", e.Key(), e.Node, to))
+					kind := "not-renominated"
+					if ok {
+						kind = "renominated-on-same-node"
+						// a shared-GPU pod moved to another GPU device of its node (GPU defragmentation inside a node)
+						if ng := pipedGroups[e.Action+"/"+e.Key()]; len(ng) > 0 && m.Pods[e.Key()] != nil && !sameStrings(ng, m.GroupsOf(m.Pods[e.Key()])) {
+							kind = "shared-gpu-pod-moved-to-other-device-of-same-node"
+						}
+					}
+					out = append(out, Viol("C06", "consolidation-without-replacement", kind, cycle, "consolidation evicted pod %s from %s without nominating it on another node (nominated to %q)", e.Key(), e.Node, to))
 				} else {
 					st.Inc("consolidation_moves")
 				}
@@ -244,3 +255,18 @@ func CheckC06(m *Model, events []sched.Event, cycle int, now time.Time, st *Stat
 
 var _ = fmt.Sprintf
 var _ metav1.Duration
+
+func sameStrings(a, b []string) bool {
+	a, b = append([]string(nil), a...), append([]string(nil), b...)
+	sort.Strings(a)
+	sort.Strings(b)
+	if len(a) != len(b) {
+		return false
+	}
+	for i := range a {
+		if a[i] != b[i] {
+			return false
+		}
+	}
+	return true
+}
